@@ -308,6 +308,12 @@ func asciiAlphaNum(c byte) bool {
 	return asciiAlpha(c) || '0' <= c && c <= '9'
 }
 
+// tagNameChar reports whether c may follow the first letter of a tag name: an ASCII letter
+// or digit, or one of '_' and '.', which occur in the names of custom elements.
+func tagNameChar(c byte) bool {
+	return asciiAlphaNum(c) || c == '_' || c == '.'
+}
+
 // eatTagName returns the largest j such that s[i:j] is a tag name and the tag name.
 func eatTagName(s []byte, i int) (int, element) {
 	if i == len(s) || !asciiAlpha(s[i]) {
@@ -316,12 +322,12 @@ func eatTagName(s []byte, i int) (int, element) {
 	j := i + 1
 	for j < len(s) {
 		x := s[j]
-		if asciiAlphaNum(x) {
+		if tagNameChar(x) {
 			j++
 			continue
 		}
 		// Allow "x-y" or "x:y" but not "x-", "-y", or "x--y".
-		if (x == ':' || x == '-') && j+1 < len(s) && asciiAlphaNum(s[j+1]) {
+		if (x == ':' || x == '-') && j+1 < len(s) && tagNameChar(s[j+1]) {
 			j += 2
 			continue
 		}
